@@ -41,6 +41,8 @@ def cases(seed, tier):
     for _ in range(n_rand):
         out.append({'kind': 'pair', 'cur': [rng.choice(POOL + [rng.randrange(0, 300)]) for _ in range(3)],
                     'min': [rng.choice(POOL + [rng.randrange(0, 300)]) for _ in range(3)]})
+    for c in out:
+        c['ct'] = rng.choice(['tt', 'tt', 'tl', 'lt', 'll'])
     for mode in ('w', 'o', 'a', 'ao'):
         out.append({'kind': 'file', 'mode': mode})
     # ... also when something else sat at the path before and the package had already looked at it in this process
@@ -55,7 +57,9 @@ def run_one(c, scratch):
     import emdfile
     if c['kind'] == 'pair':
         try:
-            return {'res': bool(emdfile._version_is_geq(tuple(c['cur']), tuple(c['min'])))}
+            mk = {'t': tuple, 'l': list}
+            ct = c.get('ct', 'tt')       # the two triples may arrive in different containers (a tuple from the file, a list from a caller)
+            return {'res': bool(emdfile._version_is_geq(mk[ct[0]](c['cur']), mk[ct[1]](c['min'])))}
         except Exception as e:
             return {'raised': type(e).__name__}
     p = os.path.join(scratch, 'v_%s_%s_%s.h5' % (c['mode'], c.get('old', ''), c.get('look', '')))
